@@ -14,7 +14,7 @@ import itertools
 import re
 
 from .core import AnalysisError
-from .objmodel import ClassModel
+from .objmodel import ClassModel, install_re
 from .ordabs import ModelRaise, Obj, Sym
 from .repo import Repo
 
@@ -33,32 +33,7 @@ def program(repo: Repo, where: str) -> ClassModel:
     restub = Obj("re")
     cm = ClassModel(repo, rels, where, {"re": restub}, max_steps=100000)
 
-    def compile_(_s: Obj, pat: str, flags: int = 0) -> Obj:
-        rx = re.compile(pat, flags)
-        o = Obj("Pattern", pattern=pat, flags=flags)
-
-        def wrap(m):  # noqa: ANN001, ANN202
-            if m is None:
-                return None
-            mo = Obj("Match")
-            mo.__dict__.update(group=lambda *a: m.group(*a), end=lambda *a: m.end(*a), start=lambda *a: m.start(*a), groups=lambda: m.groups(), span=lambda *a: m.span(*a),
-                               __getitem__=lambda i: m[i])
-            return mo
-
-        o.__dict__.update(match=lambda s, *a: wrap(rx.match(s, *a)), fullmatch=lambda s, *a: wrap(rx.fullmatch(s, *a)), search=lambda s, *a: wrap(rx.search(s, *a)))
-        return o
-
-    cm._cache[("re", "compile")] = compile_  # noqa: SLF001
-    # module-level compiled patterns (RE_X = re.compile("...")) are rebuilt through the stub
-    for r in rels:
-        for n in repo.mod(r).tree.body:
-            import ast
-
-            if isinstance(n, ast.Assign) and isinstance(n.targets[0], ast.Name) and isinstance(n.value, ast.Call) and ast.unparse(n.value.func) in ("re.compile", "regex.compile"):
-                try:
-                    cm.env[n.targets[0].id] = cm._ev().ev(n.value)  # noqa: SLF001
-                except Exception:  # noqa: BLE001
-                    pass
+    install_re(cm)
     if "unescape_string" not in cm.env:
         raise AnalysisError("anchor vanished: unescape_string")
     return cm
